@@ -20,17 +20,17 @@ theorem strscpy_never_past_size (d s : List Nat) (n : Nat) :
 theorem strscpy_nul_terminates (d s : List Nat) (n : Nat) (h0 : 0 < n) (hn : n ≤ d.length)
     (hmax : n ≤ SSIZE_MAX + 1) :
     cstr (strscpy d s n).2 = (cstr s).take (n - 1) ∧ (cstr (strscpy d s n).2).length < n := by
-  have hz : ∀ c ∈ cstr s, c ≠ 0 := by
-    intro c hc; have := List.mem_takeWhile_imp hc; simpa using this
+  have hz := cstr_ne_zero s
   rw [strscpy_spec d s n hn hmax, if_neg (by omega)]
   split
   · rename_i h
-    rw [show ((cstr s).length : Int, cstr s ++ 0 :: d.drop ((cstr s).length + 1)).2 = _ from rfl,
-      cstr_append_nul _ _ hz, List.take_of_length_le (by omega)]
+    dsimp only
+    rw [cstr_append_nul _ _ hz, List.take_of_length_le (by omega)]
     exact ⟨rfl, h⟩
   · rename_i h
     have hz' : ∀ c ∈ (cstr s).take (n - 1), c ≠ 0 := fun c hc => hz c (List.mem_of_mem_take hc)
-    rw [show (UV_E2BIG, (cstr s).take (n - 1) ++ 0 :: d.drop n).2 = _ from rfl, cstr_append_nul _ _ hz']
+    dsimp only
+    rw [cstr_append_nul _ _ hz']
     exact ⟨rfl, by simp; omega⟩
 
 /-- returns `UV_E2BIG` iff the source did not fit (was truncated); otherwise the source length -/
@@ -42,12 +42,14 @@ theorem strscpy_e2big_iff_truncated (d s : List Nat) (n : Nat) (h0 : 0 < n) (hn 
   split
   · rename_i h
     refine ⟨⟨fun he => ?_, fun hle => by omega⟩, fun _ => rfl⟩
-    simp [UV_E2BIG] at he; omega
+    simp [UV_E2BIG] at he
   · rename_i h
     exact ⟨⟨fun _ => by omega, fun _ => rfl⟩, fun hlt => by omega⟩
 
-example : strscpy [170, 170, 170, 170] [104, 105] 4 = (2, [104, 105, 0, 170]) := by decide
-example : strscpy [170, 170, 170, 170] [104, 105, 106, 107, 108] 4 = (UV_E2BIG, [104, 105, 106, 0]) := by decide
+example : strscpy [170, 170, 170, 170] [104, 105] 4 = (2, [104, 105, 0, 170]) := by
+  rw [strscpy_spec _ _ _ (by decide) (by unfold SSIZE_MAX; omega)]; decide
+example : strscpy [170, 170, 170, 170] [104, 105, 106, 107, 108] 4 = (UV_E2BIG, [104, 105, 106, 0]) := by
+  rw [strscpy_spec _ _ _ (by decide) (by unfold SSIZE_MAX; omega)]; decide
 
 /-! ## inet_pton4 -/
 
@@ -102,8 +104,10 @@ theorem uv_ip4_name_addr_roundtrip (a b c d : Nat) (ha : a ≤ 255) (hb : b ≤ 
     simp only []
     rw [cstr_append_nul _ _ (fmt4_ne_zero _), pton4_fmt4 a b c d ha hb hc hd]; rfl
 
-example : ntop4 [192, 168, 0, 1] (List.replicate 12 170) 12 = (0, [49, 57, 50, 46, 49, 54, 56, 46, 48, 46, 49, 0]) := by decide
-example : ntop4 [192, 168, 0, 1] (List.replicate 11 170) 11 = (UV_ENOSPC, List.replicate 11 170) := by decide
+example : ntop4 [192, 168, 0, 1] (List.replicate 12 170) 12 = (0, [49, 57, 50, 46, 49, 54, 56, 46, 48, 46, 49, 0]) := by
+  rw [ntop4_spec _ _ _ (by decide) (by unfold SSIZE_MAX; omega)]; decide
+example : ntop4 [192, 168, 0, 1] (List.replicate 11 170) 11 = (UV_ENOSPC, List.replicate 11 170) := by
+  rw [ntop4_spec _ _ _ (by decide) (by unfold SSIZE_MAX; omega)]; decide
 
 /-! ## inet_ntop6 -/
 
@@ -130,9 +134,11 @@ theorem ntop6_enospc_iff (src d : List Nat) (size : Nat) (hsrc : ∀ j, src.getD
 
 -- 2001:db8::1  and ::ffff:1.2.3.4
 example : ntop6Text [0x20, 0x01, 0x0d, 0xb8, 0, 0, 0, 0, 0, 0, 0, 0, 0, 0, 0, 1]
-    = .ok [50, 48, 48, 49, 58, 100, 98, 56, 58, 58, 49] := by decide
+    = .ok [50, 48, 48, 49, 58, 100, 98, 56, 58, 58, 49] := by
+  simp [ntop6Text, fmt6Loop, words, bestRun, scanStep, colon, fmtX16, hexDigit, List.range, List.range.loop]
 example : ntop6Text [0, 0, 0, 0, 0, 0, 0, 0, 0, 0, 0xff, 0xff, 1, 2, 3, 4]
-    = .ok [58, 58, 102, 102, 102, 102, 58, 49, 46, 50, 46, 51, 46, 52] := by decide
+    = .ok [58, 58, 102, 102, 102, 102, 58, 49, 46, 50, 46, 51, 46, 52] := by
+  simp [ntop6Text, fmt6Loop, words, bestRun, scanStep, colon, fmtX16, hexDigit, List.range, List.range.loop, embedV4, ntop4, fmt4, fmtU8, strscpy, strscpyLoop, cstr]
 
 /-! ## inet_pton6 -/
 
